@@ -77,11 +77,17 @@ class RProp(Prop):
                      "cancellation and shutdown handlers of zero and non-zero duration, ties, AbstractJob and "
                      "coroutine Job classes, verbose on/off, random __hash__ orders and insertion orders); each "
                      "history is replayed on the model at levels 0..3 and through the property's monitor; "
-                     "distinct = distinct canonical configuration." % max_jobs)
+                     "distinct = distinct canonical configuration. The thorough tier first runs the exhaustive small scope "
+                     "(every root with one or two atomic jobs, and every root with a nested scheduler holding one job plus "
+                     "an optional sibling that may require it, over critical/forever/outcome/duration 0-1/handler 0-1 and "
+                     "windows 0-1, timeouts None/0/1: 166 400 trees), then 100 000 random trees." % max_jobs)
 
     def generate(self, tier, rnd):
         n = 1000 if tier == "quick" else 100000
         out = []
+        if tier != "quick":
+            # exhaustive small scope first (rgen.enumerate_small: 166 400 trees), then random trees
+            out = list(rgen.enumerate_small())
         for _ in range(n):
             mj = rnd.choice([3, 5, 8, self.max_jobs, self.max_jobs])
             out.append(rgen.gen_config(rnd, max_jobs=mj, profile=self.profile))
